@@ -472,3 +472,53 @@ def c12_7(cx):
     cx.for_each(c, first, rc, "collect_all_cycle_heads")
     a = cx.args(rc[0])
     cx.check(a[0] == "$1" and a[2] == "$3" and a[3] == "$2", "each own head is resolved against (me, the query's own heads)", rc[0], {"args": a}, key="outer-args")
+
+
+@ob("C12.8", ["C12", "C18", "C13"], "the cycle-head list of a memo decides which heads it is validated against and which head finalises it: losing a head on merge, resurrecting a removed one, or iterating removed heads changes who iterates and when a provisional value counts as final", kind="FLOW+LOOP (cycle-head set operations)")
+def c12_8(cx):
+    """CycleHeads: extend inserts EVERY head of the other list with its iteration; insert finds by key, revives a removed head with the new iteration, otherwise asserts equal iterations (never silently keeps a different one), pushes a new head when absent; remove_all_except marks every head but `except` removed (never `except` itself); the iterator skips removed heads; contains compares keys over the live heads; iter_not_eq filters exactly the own key."""
+    e = cx.fn(r"^cycle::CycleHeads::extend$")
+    loops = cx.for_loops(e)
+    cx.require(len(loops) == 1, "extend: one loop")
+    ins = cx.one_call(e, r"^cycle::CycleHeads::insert$", "insert in extend")
+    cx.for_each(e, loops[0][0], [ins], "CycleHeads::extend")
+    a = cx.args(ins)
+    item = r"Iterator>::next\(.*\)@Some\.0"
+    cx.check(a[0] == "$1", "extend inserts into self", ins, key="extend-self")
+    cx.flow(e, a[1], [item + r"\.database_key_index$"], [], "the head's key", ins)
+    cx.flow(e, a[2], [r"^cycle::AtomicIterationStamp::load\(.*" + item + r"\.iteration\)$"], [r"IterationStamp::(initial|default)"], "with the head's own iteration", ins)
+    cx.skipped_only_if(e, ins, [CallIs(r"^cycle::CycleHeads::is_empty$", True, [r"^\$2$"], desc="other is empty"), VariantIn(r"Iterator>::next\(", {"None"})], "extend returns without inserting only for an empty list (or after the last head)")
+    i = cx.fn(r"^cycle::CycleHeads::insert$")
+    fc = cx.closure_passed_to(i, r"^std::iter::Iterator::find$")
+    cx.flow(fc, fc.origin_local(0), [r"PartialEq>::eq\(\$2\.database_key_index, \$1\.0\)$", r"PartialEq>::eq\(\$1\.0, \$2\.database_key_index\)$"], [r"^const:"], "insert looks the head up by its key")
+    found = VariantIn(r"Iterator>::find\(", {"Some"}, desc="head already present")
+    absent = VariantIn(r"Iterator>::find\(", {"None"}, desc="head absent")
+    push = cx.one_call(i, r"^thin_vec::ThinVec::<T>::push$", "push of a new head")
+    cx.only_if(i, push, absent, "a head is appended only if it is not present yet")
+    cx.flow(i, cx.arg(push, 1), [r"^cycle::CycleHead::new\(\$2, \$3\)$"], [], "the new head carries the key and iteration given", push)
+    st = [x for x in cx.stores(i) if x[1].endswith(".iteration")]
+    cx.sites(st, 1, "revival of a removed head")
+    for s, po, vo in st:
+        cx.only_if(i, s, found, "an existing head's iteration is overwritten only ..")
+        cx.only_if(i, s, BoolIs(r"get_mut\(.*\.removed\)$|\.removed", True, desc="the head was marked removed"), ".. when it had been removed")
+        cx.flow(i, vo, [r"Into>::into\(\$3\)$|^\$3$"], [], "with the iteration given", s)
+    rs = [x for x in cx.stores(i) if "removed" in x[1] or x[2] == "const:0"]
+    cx.check(any(x[2] == "const:0" for x in rs), "a revived head is marked live again", (rs or st)[0][0], key="revive-clears-removed")
+    cx.check(bool(i.calls(r"assert_failed$")) , "a live head with a different iteration is rejected loudly (assert_eq), not merged silently", push, key="iteration-assert")
+    r = cx.fn(r"^cycle::CycleHeads::remove_all_except$")
+    loops = cx.for_loops(r)
+    cx.require(len(loops) == 1, "remove_all_except: one loop")
+    stc = cx.one_call(r, r"Atomic::<bool>::store$|AtomicBool::store$", "removed.store(true)")
+    cx.flow(r, cx.arg(stc, 1), [r"^const:1$"], [r"^const:0$"], "heads are marked removed", stc)
+    keep = CallIs(r"PartialEq::eq$", True, [None, r"^\$2$"], desc="head == except")
+    cx.for_each(r, loops[0][0], [stc], "remove_all_except", allow_skip=[keep, Cmp(r"\.database_key_index$", "==", r"^\$2$")])
+    cx.only_if(r, stc, Cmp(r"\.database_key_index$", "!=", r"^\$2$", desc="head != except"), "`except` itself is never removed")
+    n = cx.fn(r"^<cycle::CycleHeadsIterator<'a> as std::iter::Iterator>::next$")
+    for s in cx.ret_sites(n, "Some"):
+        cx.only_if(n, s, CallIs(r"Atomic::<bool>::load$|AtomicBool::load$", False, desc="!head.removed"), "the iterator yields only live heads")
+    c = cx.fn(r"^cycle::CycleHeads::contains$")
+    ac = cx.closure_passed_to(c, r"^std::iter::Iterator::any$")
+    cx.flow(ac, ac.origin_local(0), [r"PartialEq>::eq\(\$2\.database_key_index, \$1\.0\)$", r"PartialEq>::eq\(\$1\.0, \$2\.database_key_index\)$"], [r"^const:"], "contains compares keys")
+    ne = cx.fn(r"^cycle::CycleHeads::iter_not_eq$")
+    nc = cx.closure_passed_to(ne, r"^std::iter::Iterator::filter$")
+    cx.flow(nc, nc.origin_local(0), [r"PartialEq>::ne\(\$2\.database_key_index, \$1\.0\)$", r"PartialEq>::ne\(\$1\.0, \$2\.database_key_index\)$"], [r"PartialEq>::eq\(", r"^const:"], "iter_not_eq drops exactly the own key")
